@@ -1,0 +1,81 @@
+//go:build verif
+
+// Contracts for the domain index (read as text by /verif's govc; comment-only).
+
+package domain
+
+//@ # ---- representation invariant of the index: time-ordered, pairwise disjoint, non-empty domains
+//@ spec func WF(ptrs []pointer) bool =
+//@   (forall i int :: 0 <= i && i < len(ptrs) ==> 0 <= ptrs[i].Start && ptrs[i].Start < ptrs[i].End) &&
+//@   (forall i int, j int :: 0 <= i && i < j && j < len(ptrs) ==> ptrs[i].End <= ptrs[j].Start)
+
+//@ spec func validTR(tr telem.TimeRange) bool = 0 <= tr.Start && tr.Start <= tr.End
+
+//@ func (idx *index) unprotectedSearch(tr telem.TimeRange) (pos int, found bool)
+//@   requires WF(idx.mu.pointers) && validTR(tr)
+//@   ensures  found ==> 0 <= pos && pos < len(idx.mu.pointers) && telem.SpecOvl(idx.mu.pointers[pos].TimeRange, tr)
+//@   ensures  !found ==> -1 <= pos && pos < len(idx.mu.pointers)
+//@   ensures  !found ==> (forall i int :: 0 <= i && i <= pos ==> idx.mu.pointers[i].Start <= tr.Start)
+//@   ensures  !found ==> (forall i int :: pos < i && i < len(idx.mu.pointers) ==> tr.Start < idx.mu.pointers[i].Start)
+//@   ensures  !found ==> (forall i int :: 0 <= i && i < len(idx.mu.pointers) ==> !telem.SpecOvl(idx.mu.pointers[i].TimeRange, tr))
+//@   modifies nothing
+//@   loop 0 invariant 0 <= start && end <= len(idx.mu.pointers)-1 && start <= end+1
+//@   loop 0 invariant forall i int :: 0 <= i && i < start ==> idx.mu.pointers[i].Start <= tr.Start && !telem.SpecOvl(idx.mu.pointers[i].TimeRange, tr)
+//@   loop 0 invariant forall i int :: end < i && i < len(idx.mu.pointers) ==> tr.Start < idx.mu.pointers[i].Start && !telem.SpecOvl(idx.mu.pointers[i].TimeRange, tr)
+//@   loop 0 decreases end - start + 1
+
+//@ pure func (idx *index) afterLast(ts telem.TimeStamp) bool
+//@   requires len(idx.mu.pointers) > 0
+//@ pure func (idx *index) beforeFirst(ts telem.TimeStamp) bool
+//@   requires len(idx.mu.pointers) > 0
+
+//@ trusted func NewRangeWriteConflictError(newTR telem.TimeRange, existingTR telem.TimeRange) (err error)
+//@   ensures err != nil && __is(err, ErrWriteConflict)
+//@ trusted func NewRangeNotFoundError(tr telem.TimeRange) (err error)
+//@   ensures err != nil && __is(err, ErrRangeNotFound)
+
+//@ # prepare only reads the index and returns the closure that writes the index file
+//@ trusted func (ip *indexPersist) prepare(start int) (f func() error)
+//@   modifies nothing
+
+//@ # a is b with p inserted at position k (every other pointer kept, in order)
+//@ spec func insertedAt(a []pointer, b []pointer, k int, p pointer) bool =
+//@   0 <= k && k <= len(b) && len(a) == len(b)+1 && a[k] == p &&
+//@   (forall i int :: 0 <= i && i < k ==> a[i] == b[i]) &&
+//@   (forall i int :: k <= i && i < len(b) ==> a[i+1] == b[i])
+//@ spec func sameSeq(a []pointer, b []pointer) bool =
+//@   len(a) == len(b) && (forall i int :: 0 <= i && i < len(b) ==> a[i] == b[i])
+
+//@ func (idx *index) insert(ctx context.Context, p pointer, persist bool) (err error)
+//@   requires WF(idx.mu.pointers) && 0 <= p.Start && p.Start < p.End
+//@   requires 0 <= idx.persistHead
+//@   ensures  WF(idx.mu.pointers)
+//@   ensures  sameSeq(idx.mu.pointers, old(idx.mu.pointers)) || (exists k int :: insertedAt(idx.mu.pointers, old(idx.mu.pointers), k, p) && idx.persistHead <= k)
+//@   ensures  !persist && err == nil ==> !sameSeq(idx.mu.pointers, old(idx.mu.pointers))
+//@   ensures  !persist && err != nil ==> sameSeq(idx.mu.pointers, old(idx.mu.pointers)) && idx.persistHead == old(idx.persistHead)
+//@   ensures  !persist && err != nil ==> p.fileKey == 0 || (__is(err, ErrWriteConflict) && (exists i int :: 0 <= i && i < len(idx.mu.pointers) && telem.SpecOvl(idx.mu.pointers[i].TimeRange, p.TimeRange)))
+//@   ensures  sameSeq(idx.mu.pointers, old(idx.mu.pointers)) ==> err != nil
+//@   ensures  0 <= idx.persistHead && idx.persistHead <= old(idx.persistHead)
+//@   modifies idx
+//@   pragma opaque_func_values persistPointers
+
+
+//@ # a is b with position k replaced by p
+//@ spec func replacedAt(a []pointer, b []pointer, k int, p pointer) bool =
+//@   0 <= k && k < len(b) && len(a) == len(b) && a[k] == p &&
+//@   (forall i int :: 0 <= i && i < len(b) && i != k ==> a[i] == b[i])
+
+//@ func (idx *index) update(ctx context.Context, p pointer, persist bool) (err error)
+//@   requires WF(idx.mu.pointers) && 0 <= p.Start && p.Start < p.End
+//@   # caller protocol (Writer.commit): the domain being updated was inserted by this writer
+//@   requires len(idx.mu.pointers) == 0 || (exists k int :: 0 <= k && k < len(idx.mu.pointers) && idx.mu.pointers[k].Start == p.Start)
+//@   requires 0 <= idx.persistHead
+//@   ensures  WF(idx.mu.pointers)
+//@   ensures  sameSeq(idx.mu.pointers, old(idx.mu.pointers)) || (exists k int :: replacedAt(idx.mu.pointers, old(idx.mu.pointers), k, p) && old(idx.mu.pointers)[k].Start == p.Start && idx.persistHead <= k)
+//@   ensures  !persist && err == nil ==> (exists k int :: replacedAt(idx.mu.pointers, old(idx.mu.pointers), k, p))
+//@   ensures  !persist && err != nil ==> sameSeq(idx.mu.pointers, old(idx.mu.pointers)) && idx.persistHead == old(idx.persistHead)
+//@   ensures  !persist && err != nil ==> __is(err, ErrWriteConflict) || __is(err, ErrRangeNotFound)
+//@   ensures  !persist && err != nil && __is(err, ErrWriteConflict) ==> (exists i int :: 0 <= i && i < len(idx.mu.pointers) && idx.mu.pointers[i].Start != p.Start && telem.SpecOvl(idx.mu.pointers[i].TimeRange, p.TimeRange))
+//@   ensures  0 <= idx.persistHead && idx.persistHead <= old(idx.persistHead)
+//@   modifies idx
+//@   pragma opaque_func_values persistPointers
